@@ -15,7 +15,9 @@ CONSTANTS
   MaxChanges = 1
   MaxUpdates = 0
   MaxCalls = 2
+  NPages = 2
   ModernUnsub = FALSE
+  ForeignUnsub = FALSE
   Stepwise = TRUE
   Gates = TRUE
   GateNames = {"put"}
